@@ -17,6 +17,12 @@ drain goroutine. The model is the labelled transition system of exactly those pa
   history used only in theorem statements: `fin` (callbacks that returned, with their result),
   `doneErr` (failures passed to `tracker.done`), `released`, `nTicks`, `nFailRel`.
 
+The terminal-error predicate: Go evaluates `cfg.IsTerminalError(result.err)` for EVERY non-nil error the
+main loop receives — the error a callback returned, and also the error posted by a goroutine whose
+`awaitStart` failed (the cancellation cause of its context). What a user-supplied predicate answers is
+a parameter: for a callback error it is part of the result (`Res.term`), for an `awaitStart` error it
+is the Boolean carried by the event `abort i t` and remembered in `abT i`.
+
 Quirks kept as they are: an `awaitStart` error (`aborted`) received while the loop still runs is
 counted by the tracker as a failure of that instance; `cancelContextFor` of the zone-aware context
 tracker cancels the whole zone; when the success criterion holds before the loop starts (tolerance ≥
@@ -97,6 +103,7 @@ structure St where
   cleaned : List Nat        -- log: calls of cleanupFunc, in order
   doneErr : List Nat        -- ghost: instances whose error result the main loop passed to tracker.done
   released : List Nat       -- ghost: units (instances / zones) released with "start", in order
+  abT : Nat → Bool          -- what `cfg.IsTerminalError` answers for the `awaitStart` error instance i posted
   fin : List (Nat × Res)    -- ghost: log of the callbacks that returned, with their result
   nTicks : Nat              -- ghost: hedging ticks handled by the main loop
   nFailRel : Nat            -- ghost: calls of startAdditionalRequestsDueTo("failure …") by tracker.done
@@ -173,7 +180,8 @@ def loopHead (c : Cfg) (s : St) : St := if succeeded c s then finishOk c s else 
 def base (c : Cfg) (pre : Bool) : St :=
   { rel := fun _ => .held, ctx := fun _ => pre, phase := fun _ => .waiting, chan := [], nSucc := 0, nErr := 0
     waiting := fun z => c.zones.count z, fails := fun _ => 0, pending := [], resMap := [], main := .running
-    parentCanc := pre, started := [], cleaned := [], doneErr := [], released := [], fin := [], nTicks := 0, nFailRel := 0 }
+    parentCanc := pre, started := [], cleaned := [], doneErr := [], released := [], abT := fun _ => false, fin := [], nTicks := 0
+    nFailRel := 0 }
 
 /-- the units (instances / zones) released at once by `startMinimumRequests`, given the order. -/
 def startNow (c : Cfg) (order : List Nat) : List Nat :=
@@ -205,7 +213,7 @@ inductive Ev
   | recv
   | ctxDone
   | begin (i : Nat)
-  | abort (i : Nat)
+  | abort (i : Nat) (t : Bool)   -- `awaitStart` failed; `t`: the terminal-error predicate holds for the error it posts
   | drain
   | cancelOne (i : Nat)   -- the callback of instance i calls the cancel function it was given
   deriving DecidableEq, Repr
@@ -220,10 +228,15 @@ def recvErr (c : Cfg) (s1 : St) (i : Nat) (r : Res) : St :=
   let s2 := { s1 with ctx := cancelFor c s1.ctx i, doneErr := s1.doneErr ++ [i] }
   if failed c s2 then terminate c s2 (errKind i r) else loopHead c s2
 
+/-- `cfg.IsTerminalError != nil && cfg.IsTerminalError(result.err)` for a non-nil `result.err`: the error
+of a callback (`term`) or the error posted after a failed `awaitStart` (`aborted`, answer `abT i`). -/
+def isTerminal (c : Cfg) (s : St) (i : Nat) (r : Res) : Bool :=
+  c.hasTerm && (decide (r = .term) || (decide (r = .aborted) && s.abT i))
+
 /-- the body of `case result := <-resultsChan`. -/
 def recvStep (c : Cfg) (s : St) (i : Nat) (r : Res) (rest : List (Nat × Res)) : St :=
   let s0 := { s with chan := rest, phase := upd s.phase i .consumed }
-  if c.hasTerm && r = .term then terminate c s0 (.inst i)
+  if isTerminal c s i r then terminate c s0 (errKind i r)
   else if r = .ok then recvOk c (trackerDone c s0 i false) i
   else recvErr c (trackerDone c s0 i true) i r
 
@@ -248,9 +261,10 @@ def step (c : Cfg) (s : St) : Ev → Option St
     if i < c.n ∧ s.phase i = .waiting ∧ s.rel i = .go then
       some { s with phase := upd s.phase i .running, started := s.started ++ [i] }
     else none
-  | .abort i =>
+  | .abort i t =>
     if i < c.n ∧ s.phase i = .waiting ∧ (s.rel i = .abort ∨ s.ctx i = true) then
-      some { s with phase := upd s.phase i .posted, chan := s.chan ++ [(i, .aborted)] }
+      -- (a goroutine leaves `awaitStart` once, so `abT i` is written once; `||` keeps the flag monotone by construction)
+      some { s with phase := upd s.phase i .posted, chan := s.chan ++ [(i, .aborted)], abT := upd s.abT i (s.abT i || t) }
     else none
   | .drain =>
     if s.main ≠ .running then
@@ -335,11 +349,19 @@ def trackBegin (m : MSt) (k : Nat) : Ev → MSt
   | .begin i => if (k, i) ∈ m.inflight then m else { m with inflight := m.inflight ++ [(k, i)] }
   | _ => m
 
+/-- events a worker's set never sees directly in the multi-set variant. -/
+def rawCancel : Ev → Bool
+  | .cancel => true
+  | .cancelOne _ => true
+  | _ => false
+
 def mstep (cs : List Cfg) (m : MSt) : MEv → Option MSt
   | .set k e =>
     match cs[k]? with
     | some c =>
-      if e = .cancel then none else
+      -- the caller's cancellation is `MEv.cancel`; callbacks only ever get the WRAPPED cancel function
+      -- (`finishDone` / `done`), never the raw one
+      if rawCancel e then none else
       match step c (m.sets k) e with
       | none => none
       | some s' =>
